@@ -5,7 +5,7 @@
    before every dereference of the holder and a copy owns a clone.  A property-preserving
    re-sequencing of a member breaks part 1 (and says which member) but not this file. *)
 From Common Require Import Prelude.
-From C09 Require Import Model Spec Env Micro MicroProofs FactsSem.
+From C09 Require Import Model Spec Env Micro MicroProofs Exc FactsSem.
 From C09.gen Require Import Facts.
 Local Open Scope N_scope.
 
@@ -117,3 +117,14 @@ Theorem source_emplace_forwards : forall z rv x w,
              (m_emplace_from (read_value z Other rv) (wf2 x (Some w))).
 Proof. exact FactsSem.sem_emplace_deref. Qed.
 Print Assumptions source_emplace_forwards.
+
+(* basic exception safety of the members as extracted from the working tree: a throwing payload operation never leaves
+   the flag set over raw storage (seeded order "hasValue = true; new T(...)" breaks this obligation) *)
+Theorem source_exception_flag_implies_live : exc_check flag_live gen_table = true.
+Proof. exact FactsSem.sem_exc. Qed.
+Print Assumptions source_exception_flag_implies_live.
+
+(* ... and never leaves a payload alive without the flag (the helper raises it right after the default construction) *)
+Theorem source_exception_flag_iff_live : exc_check flag_iff_live gen_table = true.
+Proof. exact FactsSem.sem_exc_iff. Qed.
+Print Assumptions source_exception_flag_iff_live.
